@@ -370,6 +370,34 @@ func extraC01(r *Run) {
 			}(cID)
 		}
 		wg.Wait()
+		// …and a burst of overlapping unary calls to ONE method, each worker with its own large payload (anything the
+		// server or channel keeps per method rather than per call shows up as another caller's bytes)
+		workers, perWorker := 8, r.Budget(60, 400)
+		start := make(chan struct{})
+		for w := 0; w < workers; w++ {
+			wg.Add(1)
+			go func(w int) {
+				defer wg.Done()
+				payload := bytes.Repeat([]byte{byte('a' + w)}, 8<<10+w*1024)
+				<-start
+				for k := 0; k < perWorker; k++ {
+					out, err := cli.Unary(context.Background(), &Msg{Payload: payload, Count: int32(w*10000 + k)})
+					if err != nil || !bytes.Equal(out.Payload, payload) || out.Count != int32(w*10000+k) {
+						mu.Lock()
+						if len(foreign) < 20 {
+							got := "error " + fmt.Sprint(err)
+							if err == nil {
+								got = sprintf("%d bytes starting %q, count %d", len(out.Payload), trunc(string(out.Payload), 4), out.Count)
+							}
+							foreign = append(foreign, sprintf("unary burst: worker %d call %d (payload %d x %q) got %s", w, k, len(payload), string(payload[:1]), got))
+						}
+						mu.Unlock()
+					}
+				}
+			}(w)
+		}
+		close(start)
+		wg.Wait()
 		r.Eval(fmt.Sprint("isolation", tp.name, nCalls), true)
 		r.Count("isolation:" + tp.name)
 		if len(foreign) > 0 {
